@@ -1,7 +1,7 @@
 (* C10 / PolFile: the option phase of the parser on the rendered option section, and the settings
    it reaches (stdlib style). *)
 Require Import String Ascii List ZArith NArith Bool Lia ZifyBool Permutation.
-Require Import MPSV.PolFile.Chars MPSV.PolFile.DecRatModel MPSV.PolFile.PolModel MPSV.PolFile.PolProofs
+Require Import MPSV.PolFile.Chars MPSV.PolFile.DecRatModel MPSV.PolFile.PolModel MPSV.PolFile.CIntProofs MPSV.PolFile.PolProofs
                MPSV.PolFile.RoundTripText MPSV.PolFile.RoundTripLines MPSV.PolFile.RoundTripOptions.
 Import ListNotations.
 Local Open Scope char_scope.
@@ -153,26 +153,50 @@ Qed.
 Lemma ltrim_digits v : all_digits v -> ltrim v = v.
 Proof. intro H. destruct H; [reflexivity|]. apply ltrim_nonspace, digit_not_space; auto. Qed.
 
-Lemma atoi_digits v : all_digits v -> v <> [] -> atoi v = Z.of_N (digits_val v).
+(* atoi / %d / %ld on a digit string, whatever its size: the C conversion of its value *)
+Lemma atoi_digits_c v : all_digits v -> v <> [] -> atoi v = int_of_digits false v.
 Proof.
   intros H Hne. unfold atoi. rewrite ltrim_digits, head_digit_signs, span_digits_all by auto. reflexivity.
 Qed.
 
-Lemma scan_int_digits v : all_digits v -> v <> [] -> scan_int v = Some (Z.of_N (digits_val v)).
+Lemma scan_int_digits_c v : all_digits v -> v <> [] -> scan_int v = Some (int_of_digits false v).
 Proof.
   intros H Hne. unfold scan_int. rewrite ltrim_digits, head_digit_signs, span_digits_all by auto.
   cbn [fst]. destruct v; [congruence|reflexivity].
 Qed.
 
+Lemma scan_long_digits_c v : all_digits v -> v <> [] -> scan_long v = Some (strtol_digits false v).
+Proof.
+  intros H Hne. unfold scan_long. rewrite ltrim_digits, head_digit_signs, span_digits_all by auto.
+  cbn [fst]. destruct v; [congruence|reflexivity].
+Qed.
+
+(* ... and when the value fits the C type, the value itself *)
+Lemma atoi_digits v : all_digits v -> v <> [] -> (Z.of_N (digits_val v) <= INT_MAX)%Z -> atoi v = Z.of_N (digits_val v).
+Proof. intros H Hne B. rewrite atoi_digits_c by auto. apply int_of_digits_small, B. Qed.
+
+Lemma scan_int_digits v : all_digits v -> v <> [] -> (Z.of_N (digits_val v) <= INT_MAX)%Z ->
+  scan_int v = Some (Z.of_N (digits_val v)).
+Proof. intros H Hne B. rewrite scan_int_digits_c by auto. f_equal. apply int_of_digits_small, B. Qed.
+
+Lemma scan_long_digits v : all_digits v -> v <> [] -> (Z.of_N (digits_val v) <= LONG_MAX)%Z ->
+  scan_long v = Some (Z.of_N (digits_val v)).
+Proof. intros H Hne B. rewrite scan_long_digits_c by auto. f_equal. apply strtol_digits_small, B. Qed.
+
 Lemma nat_token_facts n : all_digits (nat_token n) /\ nat_token n <> [] /\ digits_val (nat_token n) = N.of_nat n.
 Proof. unfold nat_token. split; [apply N_digits_all_digits|split; [apply N_digits_nonempty|apply N_digits_val]]. Qed.
 
-Lemma prec_bits_pos P : (0 < prec_bits (Zpos P))%Z.
-Proof.
-  unfold prec_bits, LOG2_10_num, LOG2_10_den.
-  rewrite Z.quot_div_nonneg by lia.
-  apply Z.lt_le_trans with 1%Z; [lia|]. apply Z.div_le_lower_bound; lia.
-Qed.
+Lemma prec_bits_pos P : (Zpos P < 2 ^ 51)%Z -> (0 < prec_bits (Zpos P))%Z.
+Proof. intro H. apply prec_bits_pos_bounded. lia. Qed.
+
+(* the bounds of [wf], as used below *)
+Definition prec_bounded (d : polydesc) : Prop :=
+  match d_prec d with
+  | Some P => if d_legacy d then prec2_in_range (Zpos P) else prec3_in_range (Zpos P)
+  | None => True end.
+
+Lemma prec3_lt P : prec3_in_range (Zpos P) -> (Zpos P < 2 ^ 51)%Z.
+Proof. unfold prec3_in_range, INT_MAX. intro H. apply Z.le_lt_trans with 2147483647%Z; [exact H|reflexivity]. Qed.
 
 Definition target_settings (d : polydesc) : settings :=
   {| s_struct := mk_structure (d_real d) (d_ctype d);
@@ -252,28 +276,32 @@ Lemma seg_dens sp e s rp pr n :
 Proof. destruct sp, e; reflexivity. Qed.
 
 Lemma seg_prec p s dn rp n :
+  match p with Some P => prec3_in_range (Zpos P) | None => True end ->
   apply_options {| s_struct := s; s_density := dn; s_repr := rp; s_prec := 0%Z; s_n := n |} (prec_flags p)
   = Some {| s_struct := s; s_density := dn; s_repr := rp;
             s_prec := match p with Some P => prec_bits (Zpos P) | None => 0%Z end; s_n := n |}.
 Proof.
-  destruct p as [P|]; [|reflexivity]. cbn [prec_flags apply_options apply_option].
-  rewrite atoi_digits by (apply N_digits_all_digits || apply N_digits_nonempty).
+  destruct p as [P|]; [|reflexivity]. intro PB. cbn [prec_flags apply_options apply_option].
+  rewrite atoi_digits by (apply N_digits_all_digits || apply N_digits_nonempty || (rewrite N_digits_val; exact PB)).
   rewrite N_digits_val. change (Z.of_N (N.pos P)) with (Z.pos P).
-  pose proof (prec_bits_pos P) as PP. destruct (prec_bits (Z.pos P) <=? 0)%Z eqn:E; [lia|reflexivity].
+  pose proof (prec_bits_pos P (prec3_lt P PB)) as PP. destruct (prec_bits (Z.pos P) <=? 0)%Z eqn:E; [lia|reflexivity].
 Qed.
 
 Lemma options_settings st d : (1 <= d_degree d)%nat ->
+  degree_in_range (Z.of_nat (d_degree d)) -> d_legacy d = false -> prec_bounded d ->
   apply_options initial_settings (map opt_fv (options_of st d)) = Some (target_settings d).
 Proof.
-  intro Hdeg. rewrite options_flags. destruct (st_explicit st) as [[[e1 e2] e3] e4].
+  intros Hdeg Hdr Hleg Hpb. unfold prec_bounded in Hpb. rewrite Hleg in Hpb.
+  assert (Hdi : (Z.of_N (N.of_nat (d_degree d)) <= INT_MAX)%Z)
+    by (unfold degree_in_range in Hdr; rewrite nat_N_Z; lia). rewrite options_flags. destruct (st_explicit st) as [[[e1 e2] e3] e4].
   destruct (nat_token_facts (d_degree d)) as (A & B & C).
   cbn [app apply_options]. cbn [apply_option initial_settings s_struct s_density s_repr s_prec s_n].
-  rewrite atoi_digits, C, nat_N_Z by auto.
+  rewrite atoi_digits, C, nat_N_Z by (auto; rewrite C; exact Hdi).
   destruct (Z.of_nat (d_degree d) <=? 0)%Z eqn:E; [lia|]. cbn [bind].
   rewrite apply_options_app, seg_kind. cbn [bind].
   rewrite app_assoc, apply_options_app, seg_struct. cbn [bind].
   rewrite apply_options_app, seg_dens. cbn [bind].
-  rewrite seg_prec. reflexivity.
+  rewrite seg_prec by exact Hpb. reflexivity.
 Qed.
 
 Definition optl (b : bool) (c : nat) : list nat := if b then [c] else [].
@@ -304,14 +332,15 @@ Qed.
 
 (* the option phase on the rendered, permuted option section *)
 Theorem options_phase_of_render st pi d REST : (1 <= d_degree d)%nat ->
+  degree_in_range (Z.of_nat (d_degree d)) -> d_legacy d = false -> prec_bounded d ->
   Forall (fun l => has_char ";" l = false) REST ->
   options_phase (zip_default stripped default_optdeco (permute pi (options_of st d)) (st_opts st) ++ REST) initial_settings
   = Some (target_settings d, REST).
 Proof.
-  intros Hdeg HR.
+  intros Hdeg Hdr Hleg Hpb HR.
   rewrite options_phase_rendered; auto.
   - rewrite map_permute, options_order_irrelevant by apply options_classes.
-    rewrite options_settings by exact Hdeg. reflexivity.
+    rewrite options_settings by assumption. reflexivity.
   - pose proof (options_good st d) as G. eapply Permutation_Forall; [|exact G].
     symmetry. apply permute_perm.
 Qed.
